@@ -584,6 +584,33 @@ example : vecInput ⟨4, true⟩ 2 (IStream.ofString [40, 32, 49, 32, 44, 50, 41
 /-- a missing `)` is a failure -/
 example : (vecInput ⟨4, true⟩ 2 (IStream.ofString [40, 49, 44, 50])).1.fail = true := by decide
 
+
+/-! ### the stream helpers `io::peek`, `io::get`, `io::expect` -/
+
+/-- `io::peek` does not consume and does not change the state when it sees a character: `io::get` right after it
+returns that character and removes exactly it. -/
+theorem get_after_peek (s : IStream) (c : Ch) (h : (peek s).2 = some c) :
+    ∃ r, (peek s).1 = s ∧ s.buf = c :: r ∧ ioGet s = ({ s with buf := r }, some c) :=
+  get_after_peek' s c h
+
+/-- `io::expect(stream, c)` skips white space and consumes exactly one further character; `failbit` is set iff that
+character is not `c` (the stream does not put it back) … -/
+theorem expect_consumes_one_character (ws : List Ch) (d : Ch) (rest : List Ch) (c : Ch) (hws : ∀ x ∈ ws, isSpace x = true) (hd : isSpace d = false) :
+    expect (IStream.ofString (ws ++ d :: rest)) c = { buf := rest, eof := false, fail := decide (d ≠ c) } :=
+  expect_spec' ws d rest c hws hd
+
+/-- … and at the end of the text it fails with `eofbit | failbit`. -/
+theorem expect_at_end_fails (ws : List Ch) (c : Ch) (hws : ∀ x ∈ ws, isSpace x = true) :
+    expect (IStream.ofString ws) c = { buf := [], eof := true, fail := true } :=
+  expect_at_end' ws c hws
+
+/-- `enum_::array` output: `[` name `=` value `,` … `]`, names in enumerator order. -/
+theorem enum_array_output_form (names : List (List Ch)) (vals : List Int) (out : List Ch) :
+    enumArrayOutput names vals out = out ++ [91] ++ enumArrayBody (names.zip vals) ++ [93] := by
+  simp [enumArrayOutput, enumArrayOutputLoop_eq]
+
+example : enumArrayOutput [[97], [98]] [1, -2] [] = [91, 97, 61, 49, 44, 98, 61, 45, 50, 93] := by decide
+
 /-! ## the `impl::codecvt` loop over an arbitrary converter -/
 
 /-- For ANY converter that satisfies the contract (`Contract`: writes inside the window, reads inside the input, what it
@@ -651,6 +678,37 @@ theorem toy_codecvt_total (p : Toy) (wide : Bool) (s : List Nat) : ∃ res, toyC
   have := (toyGo_spec p st inp w 0 []).2.2.2
   simp only [toyConverter, toyStep] at hp ⊢
   exact this (by simpa using List.length_pos_iff.mpr hp)
+
+
+/-- The scripted facets are a second, very different instance of the abstract loop theorem (a state that is not initial
+between two calls, `noconv`, `error`, `partial` without output, chunked calls, `ok` with input left over): with the
+meaning `ToyRel` of their conversion (a function of state and input, `toyRel_functional`), whatever `impl::codecvt`
+returns for ANY parameter set and ANY input is the input itself (`noconv`) or THE complete conversion ending in the
+initial state — never a part of it. -/
+theorem toy_codecvt_complete_or_fail (p : Toy) (wide : Bool) (s : List Nat) :
+    ∃ res, toyCodecvt p wide s = .ok res ∧
+      (res = none ∨ res = some (s.map (toyConverter p wide).cast) ∨ ∃ out, res = some out ∧ ToyRel 0 s out 0 ∧
+        ∀ out' st', ToyRel 0 s out' st' → out' = out ∧ st' = 0) := by
+  obtain ⟨res, h, ho⟩ := codecvt_outcome (toyConverter p wide) ToyRel (toy_contract_sound p wide) toyRel_compositional rfl s
+  refine ⟨res, h, ?_⟩
+  rcases ho with ho | ⟨ho, _⟩ | ⟨out, s', ho, hr, hi⟩
+  · exact Or.inl ho
+  · exact Or.inr (Or.inl ho)
+  · have hs : s' = 0 := by simpa [toyConverter] using hi
+    subst hs
+    exact Or.inr (Or.inr ⟨out, ho, hr, fun out' st' h' => toyRel_functional h' hr⟩)
+
+
+/-! non-vacuity: the branches the C.utf8 facet never takes -/
+example : toyCodecvt ⟨true, false, false, 3, 0⟩ false [1, 15, 5] = .ok (some [2, 2, 20]) := by decide
+/-- chunked calls and a lead unit whose follower arrives in the next call: the state is carried from call to call -/
+example : toyCodecvt ⟨true, false, true, 3, 2⟩ false [2, 15, 5, 3] = .ok (some [3, 3, 3, 20, 4]) := by decide
+/-- `noconv`: the input itself (sign-extended `char` → `wchar_t`), not what the buffer held so far -/
+example : toyCodecvt ⟨true, false, false, 3, 0⟩ false [1, 0xFD] = .ok (some [1, 0xFFFFFFFD]) := by decide
+/-- a lead unit at the very end: failure, whether the facet swallows it (`ok`, state not initial) or holds it back (`partial`, nothing written) -/
+example : toyCodecvt ⟨true, false, false, 3, 0⟩ false [1, 15] = .ok none ∧ toyCodecvt ⟨false, false, false, 3, 0⟩ false [1, 15] = .ok none := by decide
+/-- an untruthful `max_length()` makes the loop give up although the input is fine (a failure, never a part) -/
+example : toyCodecvt ⟨true, false, false, 1, 0⟩ false [2] = .ok none ∧ toyCodecvt ⟨true, false, false, 3, 0⟩ false [2] = .ok (some [3, 3, 3]) := by decide
 
 /-- `error` in the first call is a failure, `noconv` in the first call returns the input itself (converted character
 by character) — never the buffer. -/
